@@ -25,7 +25,7 @@ func init() {
 		Horizon: 3 * time.Hour, MaxSteps: 2000000, Weight: 1, Main: conformMain,
 	})
 	Register(&Scenario{
-		Name: "upload", Knobs: true, Props: []string{"C16"}, CrashTo: "C05", Also: map[string]int{"C05": 1},
+		Name: "upload", Knobs: true, Props: []string{"C16"}, CrashTo: "C05", Also: map[string]int{"C05": 1, "C01": 1}, // C01: the content of every uploaded block
 		Horizon: 3 * time.Hour, MaxSteps: 2000000, Weight: 1, Main: uploadMain,
 	})
 }
